@@ -1,6 +1,6 @@
 (** Property C20 — the theorems the check counts as obligations.  Nothing but
     statements closed by [exact] and [Print Assumptions]. *)
-From HS Require Import Base.Prelude C20.Model C20.Bloom.
+From HS Require Import Base.Prelude C20.Model C20.Bloom C20.Counting C20.TopK.
 Local Open Scope Z_scope.
 
 (** Bloom: every item added with a positive count is reported present — for
@@ -26,3 +26,65 @@ Theorem c20_bloom_merge_homomorphism : forall hsh m k, 0 < m -> forall s1 s2,
   b_sketch hsh m k (s1 ++ s2) bloom_empty.
 Proof. exact bloom_merge_homomorphism. Qed.
 Print Assumptions c20_bloom_merge_homomorphism.
+
+(** Count-Min: the estimate is never below the true count — every row hash,
+    width, depth >= 1, stream (weights included). *)
+Theorem c20_cms_never_underestimates : forall hc w d, 0 < d -> forall s x,
+  true_count x s <= c_est hc w d (c_sketch hc w d s cms_empty) x.
+Proof. exact cms_never_underestimates. Qed.
+Print Assumptions c20_cms_never_underestimates.
+
+Theorem c20_cms_merge_homomorphism : forall hc w d s1 s2,
+  (forall r col, c_cnt (c_merge (c_sketch hc w d s1 cms_empty) (c_sketch hc w d s2 cms_empty)) r col =
+                 c_cnt (c_sketch hc w d (s1 ++ s2) cms_empty) r col) /\
+  c_total (c_merge (c_sketch hc w d s1 cms_empty) (c_sketch hc w d s2 cms_empty)) =
+  c_total (c_sketch hc w d (s1 ++ s2) cms_empty).
+Proof. exact cms_merge_homomorphism. Qed.
+Print Assumptions c20_cms_merge_homomorphism.
+
+Theorem c20_cms_merged_never_underestimates : forall hc w d, 0 < d -> forall s1 s2 x,
+  true_count x (s1 ++ s2) <=
+  c_est hc w d (c_merge (c_sketch hc w d s1 cms_empty) (c_sketch hc w d s2 cms_empty)) x.
+Proof. exact cms_merged_never_underestimates. Qed.
+Print Assumptions c20_cms_merged_never_underestimates.
+
+(** HyperLogLog: merge = sketch of the concatenated streams on every register
+    of the array and the total (same hash function, i.e. same seed). *)
+Theorem c20_hll_merge_homomorphism : forall hh p s1 s2,
+  (forall i, 0 <= i < 2 ^ p ->
+     h_reg (h_merge p (h_sketch hh p s1 hll_empty) (h_sketch hh p s2 hll_empty)) i =
+     h_reg (h_sketch hh p (s1 ++ s2) hll_empty) i) /\
+  h_total (h_merge p (h_sketch hh p s1 hll_empty) (h_sketch hh p s2 hll_empty)) =
+  h_total (h_sketch hh p (s1 ++ s2) hll_empty).
+Proof. exact hll_merge_homomorphism. Qed.
+Print Assumptions c20_hll_merge_homomorphism.
+
+(** TopK (space-saving), every k >= 1 and weighted stream. *)
+Theorem c20_topk_tracked_bounds : forall k, 0 < k -> forall s x n e,
+  tk_find x (t_cnt (tk_sketch k s topk_empty)) = Some (n, e) ->
+  0 <= e /\ n - e <= true_count x s <= n.
+Proof. exact topk_tracked_bounds. Qed.
+Print Assumptions c20_topk_tracked_bounds.
+
+Theorem c20_topk_counts_sum_to_N : forall k, 0 < k -> forall s,
+  sumc (t_cnt (tk_sketch k s topk_empty)) = stream_total s /\
+  t_total (tk_sketch k s topk_empty) = stream_total s /\
+  Z.of_nat (length (t_cnt (tk_sketch k s topk_empty))) <= k.
+Proof. exact topk_counts_sum_to_N. Qed.
+Print Assumptions c20_topk_counts_sum_to_N.
+
+Theorem c20_topk_heavy_hitters_tracked : forall k, 0 < k -> forall s x,
+  tk_threshold k (tk_sketch k s topk_empty) < true_count x s ->
+  exists n e, tk_find x (t_cnt (tk_sketch k s topk_empty)) = Some (n, e).
+Proof. exact topk_heavy_hitters_tracked. Qed.
+Print Assumptions c20_topk_heavy_hitters_tracked.
+
+Theorem c20_topk_estimate_with_error : forall k, 0 < k -> forall s x,
+  let st := tk_sketch k s topk_empty in
+  let n := fst (tk_est_err st x) in
+  let e := snd (tk_est_err st x) in
+  (n - e <= true_count x s) /\
+  (tk_find x (t_cnt st) <> None -> true_count x s <= n) /\
+  (tk_find x (t_cnt st) = None -> n = 0 /\ true_count x s <= e).
+Proof. exact topk_estimate_with_error. Qed.
+Print Assumptions c20_topk_estimate_with_error.
